@@ -41,6 +41,9 @@ func supervise(id string) {
 	}
 	start := time.Now()
 	args := os.Args[1:]
+	attempt := 0
+retry:
+	attempt++
 	var cmd *exec.Cmd
 	if MemLimitGB > 0 {
 		if pl, err := exec.LookPath("prlimit"); err == nil {
@@ -70,6 +73,15 @@ func supervise(id string) {
 	}
 	text := keep.String()
 	headline, frame, inSUT := classifyCrash(text)
+	if !inSUT && frame == "" && attempt < 3 && (strings.HasPrefix(headline, "SIGSEGV") || strings.HasPrefix(headline, "fatal error: ") || strings.HasPrefix(headline, "unexpected fault")) {
+		// The crashing goroutine has no frame outside the Go runtime (seen twice in ~10^3 runs on the
+		// overloaded machine: SIGSEGV in runtime.(*mheap).freeManual called from the background
+		// sweeper, once in a check that has no cgo at all). Nothing of the check or of the code under
+		// test is on that stack, the checks are deterministic, so the run is simply repeated; a
+		// crash that persists is still reported as a harness error.
+		fmt.Fprintf(os.Stderr, "NOTE: check worker crashed inside the Go runtime (%s); repeating the run (attempt %d)\n", headline, attempt+1)
+		goto retry
+	}
 	if !inSUT {
 		fmt.Fprintf(os.Stderr, "HARNESS-ERROR: check worker ended with status %d (%s); innermost frame %q is not in the code under test\n", code, headline, frame)
 		os.Exit(2)
